@@ -69,8 +69,13 @@ def check(ctx):
         found = True
         # the models of these four primitives are their specifications (Props/C16 proves the
         # contract of the model), so a disagreement is a counterexample to the contract
+        hist = [o]
+        if r.startswith("earlier-result-changed"):
+            # the reply depends on the calls before it (their results are still held): the replay is the run of dec ops up to this one
+            i = pops.index(o)
+            hist = [x for x in pops[:i] if x.split()[0] == "dec"][-8:] + [o]
         ctx.violation("counterexample", "prim: machine primitive vs its model/specification",
-                      {"proto": "prim", "ops": [o]}, expected=m, observed=r)
+                      {"proto": "prim", "ops": hist}, expected=m, observed=r)
 
     wops = C.hcorr("wt", "gen", ["-seed", str(ctx.seed), "-tier", ctx.tier])
     wreal, wmodel = run_wt(build, wops)
